@@ -242,6 +242,9 @@ func runC05(c *core.Ctx) {
 	case c.Index < exh+smp:
 		for i := 0; i < c05Block; i++ {
 			d := 4 + c.R.Intn(2)
+			if c.R.Intn(10) == 0 {
+				d = 6 + c.R.Intn(3) // up to nine nested commands
+			}
 			k := c05Cfg{d: d, beh: make([]int, 2*(d+1)+1)}
 			for j := range k.beh {
 				k.beh[j] = c.R.Intn(c05Kinds)
